@@ -17,7 +17,7 @@ YOUR TASK: craft ONE realistic change to the library source (not to tests) that 
   * it needs something SPECIFIC to manifest — a particular interleaving or order of events, a multi-step sequence of operations, an unusual or boundary input, a fault at a particular point, or two cooperating sites that each look fine alone. A change that ordinary use would expose at once is not wanted.
   * Files named verif_*.rs and items behind `cfg(libp2p_verif)` are test instrumentation: do not modify them and do not rely on them.
 
-Then write a DEMONSTRATION: a test (a new file under the crate's tests/ directory or a new #[test] in a new #[cfg(test)] module file) or a small example program that FAILS with your change and PASSES without it. Verify both directions yourself (git stash / git diff / patch -R as you like).
+Then write a DEMONSTRATION: a test (a new file under the crate's tests/ directory or a new #[test] in a new #[cfg(test)] module file) or a small example program that FAILS with your change and PASSES without it. Verify both directions yourself. Do NOT use `git stash` (the stash is shared between worktrees of the same repository and other agents use it concurrently); use `git diff > file` and `git apply -R file` instead.
 
 DELIVER in /tmp/seed/{pid}-out/ :
   patch.diff   `git diff` of the library source change ONLY (apply-able with `git apply` at the worktree root; must not contain the demonstration)
